@@ -331,6 +331,8 @@ class SplitIntoBins():
         self.bins = lena.structures.init_bins(edges, seq, deepcopy=True)
         self.edges = edges
         self._cur_context = {}
+        # indices of the cells that signalled LenaStopFill
+        self._stopped_cells = set()
 
     def fill(self, val):
         """Fill the cell corresponding to *arg_var(val)* with *val*.
@@ -359,7 +361,14 @@ class SplitIntoBins():
             except IndexError:
                 return
         # subarr is now the cell self.edges[bin_index]
-        subarr.fill(val)
+        cell_index = tuple(bin_index)
+        if cell_index not in self._stopped_cells:
+            try:
+                subarr.fill(val)
+            except lena.core.LenaStopFill:
+                # only this cell stops accepting values,
+                # other cells continue to be filled.
+                self._stopped_cells.add(cell_index)
         self._cur_context = context
 
     def compute(self):
